@@ -7,6 +7,7 @@ are used — the statements therefore also hold for IEEE floats, NaN and inf inc
 /repo 82e7c58 `out.set_zero()` writes exact zeros, so `ProximalL2` needs no hypothesis either).
 -/
 import OdlModel.Model.ProxProg
+import OdlModel.Model.ProxAux
 import OdlModel.Model.Call
 import OdlModel.Lemmas.ProxProg
 import OdlModel.Lemmas.Call
@@ -382,3 +383,291 @@ example : aliasedCalls (fun _ _ _ => 0) (prog intFns intPar (.l1 false false)) 3
     (.l1 false false) (fun _ _ _ => 0) (fun _ _ => 0) (fun _ _ => 9) 3).2
   rw [h]
   simp [iter, run, exec, prog, env0, Env.set, St.write, srcVals, intFns, intPar]
+
+/-! ## Round 4: `_abs_pow_ufunc` and the gradient operators (`Model/ProxAux.lean`) -/
+
+namespace OdlModel.C10
+
+/-- Locality of a body: what the aliased call leaves in `x` depends only on `x` and on the
+closed-over data (buffers 0, 2–5), not on other objects nor on junk. -/
+def Local {K} (P : Stmt K) : Prop :=
+  ∀ (jk jk' : Nat → Vec K) (m m' : Nat → Vec K),
+    m 0 = m' 0 → m 2 = m' 2 → m 3 = m' 3 → m 4 = m' 4 → m 5 = m' 5 →
+    (run jk P 0 0 m).mem 0 = (run jk' P 0 0 m').mem 0
+
+/-- Integer instance of `AuxFns` for non-vacuity examples. -/
+def intAux : AuxFns Int where
+  log := id
+  isZero := fun a => a = 0
+  nonzero := fun a => a ≠ 0
+  allFinite := fun _ => true
+  absPow0 := fun _ => 1
+  ge := fun a b => a ≥ b
+
+/-- `HuberGradient._call` on a non-product space with `grad = x` instead of `grad = x / gamma`
+(what the body would be if the division were skipped for `gamma == 1`): the masked assignment
+`grad[index] = …` then writes into the caller's `x`. -/
+def huberGradNoCopy {K} [Add K] [Mul K] [Div K] [OfNat K 0] [OfNat K 1] (F : Fns K) (A : AuxFns K) (P : Par K) : Stmt K :=
+  .new .nrm [.x] (fun a i => F.abs (a 0 i)) ;;
+  .bind .tmp .x ;;
+  .new .mask [.nrm] (fun a i => F.ofBool (A.ge (a 0 i) P.gamma)) ;;
+  .set .tmp [.tmp, .x, .mask, .nrm]
+    (fun a i => if F.truthy (a 2 (F.bidx i)) then a 1 i / a 3 (F.bidx i) else a 0 i) ;;
+  bridge .tmp
+
+end OdlModel.C10
+
+/-- ROUND 4. Alias safety of the additional modelled bodies: the three branches of
+`PointwiseNorm._abs_pow_ufunc(fi, out, p)` — which `_call_vecfield_p` invokes as
+`self._abs_pow_ufunc(out, out=out, p=1/exponent)`, the only `f(a, out=a)` site on space elements
+outside odl/solvers — and the gradient operators of `default_functionals.py` that cannot raise
+(`L1Gradient`, `L2Gradient`, `KLGradient`, `KLCCGradient`, `KLCrossEntCCGradient`,
+`HuberGradient` through the default in-place bridge, `GroupL1Gradient` in place): for every
+branch/flag, scalar type, function instantiation, parameter, length, content and junk,
+`G(x, out=x)` leaves in `x` what `G(x, out=y)` leaves in `y`.
+Content: `absPowSqrt`/`absPowGen` write `out` twice (the second statement must read only `out`);
+for the bridged gradients and `GroupL1Gradient` `out` is written once, by the last statement — there
+the statement says that the body computes its result in NEW objects before `out` is touched
+(`C10.last_write_only_is_alias_safe` applies). `KLCrossEntropyGradient` (which raises for
+non-positive input) is `C10.klce_gradient_alias_safe_partial` / `…_raise_writes_nothing`. -/
+theorem C10.aux_alias_safe {K : Type} [Add K] [Sub K] [Mul K] [Div K] [Neg K] [OfNat K 0]
+    [OfNat K 1] (F : Fns K) (A : AuxFns K) (hF : ∀ b, F.truthy (F.ofBool b) = b) (P : Par K)
+    (id : AuxId) (hid : id.mayRaise = false) : AliasSafe (auxProg F A P id) := by
+  intro jk jk' m j
+  cases id <;> (try rename_i a; cases a)
+  all_goals (try (simp [AuxId.mayRaise] at hid; done))
+  all_goals
+    simp [run, exec, auxProg, bridge, env0, Env.set, St.write, srcVals, cst, hF,
+      ite_fst', ite_snd', ite_mem', ite_app']
+  all_goals (try funext i)
+  all_goals (try split_ifs)
+  all_goals (try (simp))
+  all_goals (try simp_all)
+
+/-- `KLCrossEntropyGradient` on inputs where it does not raise (`np.all(np.isfinite(tmp))`, with
+`tmp = log(x)` resp. `log(x / prior)`): the aliased call agrees with the non-aliased one.
+(`_partial`: the unconditional `AliasSafe` is false for this body — on the raising path the
+non-aliased `out` keeps its junk; see `C10.klce_gradient_raise_writes_nothing`.) -/
+theorem C10.klce_gradient_alias_safe_partial {K : Type} [Add K] [Sub K] [Mul K] [Div K] [Neg K]
+    [OfNat K 0] [OfNat K 1] (F : Fns K) (A : AuxFns K) (P : Par K) (g : Bool)
+    (jk jk' : Nat → Vec K) (m : Nat → Vec K) (j : Vec K)
+    (hfin : A.allFinite (fun i => A.log (if g then m 0 i / m 2 i else m 0 i)) = true) :
+    (run jk (auxProg F A P (.gradKLCE g)) 0 0 m).mem 0 =
+      (run jk' (auxProg F A P (.gradKLCE g)) 0 1 (fun b => if b = 1 then j else m b)).mem 1 := by
+  cases g
+  all_goals
+    simp [run, exec, auxProg, bridge, env0, Env.set, St.write, srcVals,
+      ite_fst', ite_snd', ite_mem', ite_app'] at hfin ⊢
+  all_goals simp [hfin]
+
+/-- The raising path of `KLCrossEntropyGradient` (some `log` not finite) writes NO existing
+object — neither `x`, nor `out`, nor the prior: the exception leaves the caller's data intact,
+aliased or not. -/
+theorem C10.klce_gradient_raise_writes_nothing {K : Type} [Add K] [Sub K] [Mul K] [Div K] [Neg K]
+    [OfNat K 0] [OfNat K 1] (F : Fns K) (A : AuxFns K) (P : Par K) (g : Bool)
+    (jk : Nat → Vec K) (m : Nat → Vec K) (ob : Nat) (hob : ob ≤ 1)
+    (hinf : A.allFinite (fun i => A.log (if g then m 0 i / m 2 i else m 0 i)) = false)
+    (b : Nat) (hb : b < 10) : (run jk (auxProg F A P (.gradKLCE g)) 0 ob m).mem b = m b := by
+  have hob' : ob = 0 ∨ ob = 1 := by omega
+  have h9 : b ≠ 10 ∧ b ≠ 11 ∧ b ≠ 12 := by omega
+  obtain ⟨h10, h11, h12⟩ := h9
+  cases g <;> rcases hob' with rfl | rfl
+  all_goals
+    simp [run, exec, auxProg, bridge, env0, Env.set, St.write, srcVals,
+      ite_fst', ite_snd', ite_mem', ite_app', h10, h11, h12] at hinf ⊢
+  all_goals simp [hinf, h10, h11, h12]
+
+/-- Frame for the round-4 bodies: none of them writes its input `x` (when `x` is not `out`) nor
+the closed-over prior `g` — in particular `HuberGradient`'s masked assignment and
+`GroupL1Gradient`'s in-place division hit copies. -/
+theorem C10.aux_frame {K : Type} [Add K] [Sub K] [Mul K] [Div K] [Neg K] [OfNat K 0] [OfNat K 1]
+    (F : Fns K) (A : AuxFns K) (P : Par K) (id : AuxId) : Frame (auxProg F A P id) := by
+  intro jk m ob hob b hb hne
+  have hob' : ob = 0 ∨ ob = 1 := by omega
+  have h9 : b ≠ 10 ∧ b ≠ 11 ∧ b ≠ 12 ∧ b ≠ 13 ∧ b ≠ 14 ∧ b ≠ 15 := by omega
+  obtain ⟨h10, h11, h12, h13, h14, h15⟩ := h9
+  cases id <;> (try rename_i a; cases a)
+  all_goals rcases hob' with rfl | rfl
+  all_goals
+    simp [run, exec, auxProg, bridge, env0, Env.set, St.write, srcVals, cst,
+      ite_fst', ite_snd', ite_mem', ite_app', hne, h10, h11, h12, h13, h14, h15]
+  all_goals (try split_ifs)
+  all_goals (try simp_all)
+
+/-- Locality of the round-4 bodies (see `Local`). -/
+theorem C10.aux_local {K : Type} [Add K] [Sub K] [Mul K] [Div K] [Neg K] [OfNat K 0] [OfNat K 1]
+    (F : Fns K) (A : AuxFns K) (hF : ∀ b, F.truthy (F.ofBool b) = b) (P : Par K) (id : AuxId) :
+    Local (auxProg F A P id) := by
+  intro jk jk' m m' h0 h2 h3 h4 h5
+  cases id <;> (try rename_i a; cases a)
+  all_goals
+    simp [run, exec, auxProg, bridge, env0, Env.set, St.write, srcVals, cst, hF,
+      ite_fst', ite_snd', ite_mem', ite_app', h0, h2, h3, h4, h5]
+  all_goals (try funext i)
+  all_goals (try split_ifs)
+  all_goals (try (simp))
+  all_goals (try simp_all)
+
+/-- The leaf contract of C03 follows from alias safety ALONE, for ANY program of the buffer
+language (generalises `C10.prog_leaf_ok`, whose proof used nothing else): every body proved
+alias safe — now or later — can be a leaf of `C10.alias_safe_tree` / `C10.diagonal_alias_safe`. -/
+theorem C10.alias_safe_leaf_ok {K : Type} (Q : Stmt K) (hA : AliasSafe Q) (jk : Nat → Vec K)
+    (d : Nat → Vec K) : LeafOK (Leaf.ofProg jk Q d) := by
+  refine ⟨fun h => absurd rfl h, fun _ s x y hx hy => ?_⟩
+  refine ⟨by simp [Leaf.ofProg], ?_, ?_, by simp [Leaf.ofProg]⟩
+  · simp only [Leaf.ofProg, write_mem_same]
+    by_cases hxy : x = y
+    · subst hxy
+      simp only [if_true]
+      rw [hA jk jk (localMem s x x d) (s.mem x),
+        hA jk jk (fun b => if b = 0 then s.mem x else d b) (s.mem x)]
+      congr 2
+      funext b
+      by_cases h1 : b = 1 <;> by_cases h0 : b = 0 <;> simp [localMem, h1, h0]
+    · simp only [hxy, if_false]
+      rw [hA jk jk (fun b => if b = 0 then s.mem x else d b) (s.mem y)]
+      congr 2
+      funext b
+      by_cases h1 : b = 1 <;> by_cases h0 : b = 0 <;> simp_all [localMem]
+  · intro b _ hne
+    simp only [Leaf.ofProg]
+    exact write_mem_other _ _ _ _ hne
+
+/-- The gradient operators as leaves of operator expressions (e.g. the gradient of
+`f.translated(y)`, `f * a`, `a * f` is built by the operator calculus from these bodies):
+each round-4 body satisfies the leaf contract, so `C10.alias_safe_tree` applies to every tree
+over them. -/
+theorem C10.aux_leaf_ok {K : Type} [Add K] [Sub K] [Mul K] [Div K] [Neg K] [OfNat K 0]
+    [OfNat K 1] (F : Fns K) (A : AuxFns K) (hF : ∀ b, F.truthy (F.ofBool b) = b)
+    (P : Par K) (id : AuxId) (hid : id.mayRaise = false) (jk : Nat → Vec K) (d : Nat → Vec K) :
+    LeafOK (Leaf.ofProg jk (auxProg F A P id) d) :=
+  C10.alias_safe_leaf_ok _ (C10.aux_alias_safe F A hF P id hid) jk d
+
+/-- HISTORY INVARIANT for ANY program that satisfies `Frame` and `Local` (generalises
+`C10.history_invariant`): after any number of aliased calls on one store the data are unchanged
+and `x` holds the n-fold iterate of the map computed from a fresh store. -/
+theorem C10.history_invariant_of {K : Type} (Q : Stmt K) (hFr : Frame Q) (hL : Local Q)
+    (jks : Nat → Nat → Vec K) (jk0 : Nat → Vec K) (m : Nat → Vec K) (n : Nat) :
+    (∀ b : Nat, 2 ≤ b → b < 10 → aliasedCalls jks Q n m b = m b) ∧
+    aliasedCalls jks Q n m 0 =
+      iter (fun v => (run jk0 Q 0 0 (fun b => if b = 0 then v else m b)).mem 0) n (m 0) := by
+  induction n with
+  | zero => exact ⟨fun _ _ _ => rfl, rfl⟩
+  | succ n ih =>
+    obtain ⟨ihd, ihv⟩ := ih
+    constructor
+    · intro b hb2 hb10
+      simp only [aliasedCalls]
+      rw [hFr (jks n) _ 0 (by omega) b hb10 (by omega), ihd b hb2 hb10]
+    · simp only [aliasedCalls, iter]
+      rw [← ihv]
+      apply hL
+      · simp
+      · simpa using ihd 2 (by omega) (by omega)
+      · simpa using ihd 3 (by omega) (by omega)
+      · simpa using ihd 4 (by omega) (by omega)
+      · simpa using ihd 5 (by omega) (by omega)
+
+/-- The round-4 bodies are stateless across any number of aliased calls (the driver executes
+`aliasedCalls` on them; stream `aux-iterated-alias`). -/
+theorem C10.aux_history_invariant {K : Type} [Add K] [Sub K] [Mul K] [Div K] [Neg K]
+    [OfNat K 0] [OfNat K 1] (F : Fns K) (A : AuxFns K) (hF : ∀ b, F.truthy (F.ofBool b) = b)
+    (P : Par K) (id : AuxId) (jks : Nat → Nat → Vec K) (jk0 : Nat → Vec K) (m : Nat → Vec K)
+    (n : Nat) :
+    (∀ b : Nat, 2 ≤ b → b < 10 → aliasedCalls jks (auxProg F A P id) n m b = m b) ∧
+    aliasedCalls jks (auxProg F A P id) n m 0 =
+      iter (fun v => (run jk0 (auxProg F A P id) 0 0 (fun b => if b = 0 then v else m b)).mem 0)
+        n (m 0) :=
+  C10.history_invariant_of _ (C10.aux_frame F A P id) (C10.aux_local F A hF P id) jks jk0 m n
+
+/-- Sensitivity: `HuberGradient._call` with `grad = x` (no new object) violates `Frame` — the
+non-aliased call would overwrite the caller's `x` (witness over ℤ: x = 6, gamma = 1: x becomes
+6 / |6| = 1). -/
+theorem C10.huber_gradient_without_copy_writes_input :
+    ¬ Frame (huberGradNoCopy intFns intAux intPar) := by
+  intro h
+  have := congrFun (h (fun _ _ => 0) (fun _ _ => 6) 1 (by omega) 0 (by omega) (by omega)) 0
+  revert this
+  simp [run, exec, huberGradNoCopy, bridge, env0, Env.set, St.write, srcVals, intFns, intAux, intPar]
+
+/-- Non-vacuity: aliased `_abs_pow_ufunc(out, out=out, p=0.5)` over ℤ (`sqrt := id`): −7 ↦ 7;
+aliased `HuberGradient` (gamma = 1) at x = −6: −6 / |−6| = −1; and three aliased calls of the
+general-p branch (`pow := square`): 2 ↦ 4 ↦ 16 ↦ 256 via `aux_history_invariant`. -/
+example : (run (fun _ _ => 0) (auxProg intFns intAux intPar .absPowSqrt) 0 0 (fun _ _ => -7)).mem 0 0 = 7 := by
+  simp [run, exec, auxProg, env0, St.write, srcVals, intFns]
+
+example : (run (fun _ _ => 0) (auxProg intFns intAux intPar (.gradHuber false)) 0 0
+    (fun _ _ => -6)).mem 0 0 = -1 := by
+  simp [run, exec, auxProg, bridge, env0, Env.set, St.write, srcVals, intFns, intAux, intPar]
+
+example : aliasedCalls (fun _ _ _ => 0) (auxProg intFns intAux intPar .absPowGen) 3
+    (fun _ _ => 2) 0 0 = 256 := by
+  have h := (C10.aux_history_invariant intFns intAux (by intro b; cases b <;> simp [intFns]) intPar
+    .absPowGen (fun _ _ _ => 0) (fun _ _ => 0) (fun _ _ => 2) 3).2
+  rw [h]
+  simp [iter, run, exec, auxProg, env0, St.write, srcVals, intFns]
+
+example : AliasSafe (auxProg intFns intAux intPar .gradGroupL1) :=
+  C10.aux_alias_safe intFns intAux (by intro b; cases b <;> simp [intFns]) intPar .gradGroupL1 rfl
+
+/-- Non-vacuity of the KLCE pair: with `intAux` (everything finite) the hypothesis of the
+partial theorem holds; with `allFinite := false` that of the raise theorem holds. -/
+example : (run (fun _ _ => 0) (auxProg intFns intAux intPar (.gradKLCE false)) 0 0
+    (fun _ _ => 5)).mem 0 = (run (fun _ _ => 0) (auxProg intFns intAux intPar (.gradKLCE false)) 0 1
+      (fun b => if b = 1 then (fun _ => 9) else (fun _ => 5))).mem 1 :=
+  C10.klce_gradient_alias_safe_partial intFns intAux intPar false _ _ (fun _ _ => 5) (fun _ => 9) rfl
+
+example : (run (fun _ _ => 0) (auxProg intFns { intAux with allFinite := fun _ => false } intPar
+    (.gradKLCE true)) 0 1 (fun _ _ => 5)).mem 1 = fun _ => 5 :=
+  C10.klce_gradient_raise_writes_nothing intFns _ intPar true _ (fun _ _ => 5) 1 (by omega) rfl 1
+    (by omega)
+
+/-! ### `RosenbrockGradient._call(x, out)`: an in-place body that is NOT alias safe (finding) -/
+
+/-- The loop of `RosenbrockGradient._call` keeps the environment and the allocation counter and
+writes only the object bound to `out` — for every list of indices (any domain size). -/
+theorem C10.rosenbrock_loop_frame {K : Type} [Add K] [Sub K] [Mul K] [OfNat K 1]
+    (c : K) (jk : Nat → Vec K) (is : List Nat) (env : Env) (s : St K) :
+    (exec jk (rosenLoop c is) (env, s)).1 = env ∧
+    (exec jk (rosenLoop c is) (env, s)).2.next = s.next ∧
+    ∀ b, b ≠ env .out → (exec jk (rosenLoop c is) (env, s)).2.mem b = s.mem b := by
+  induction is generalizing s with
+  | nil => simp [rosenLoop, exec]
+  | cons i is ih =>
+    obtain ⟨h1, h2, h3⟩ := ih (s.write (env .out)
+      ((fun a k => if k = i then
+          (1 + 1) * c * (a 1 i - a 1 (i - 1) * a 1 (i - 1))
+            - (1 + 1 + 1 + 1) * c * (a 1 (i + 1) - a 1 i * a 1 i) * a 1 i - (1 + 1) * (1 - a 1 i)
+        else a 0 k) (srcVals env s .out [.out, .x])))
+    simp only [rosenLoop, rosenInner, exec]
+    refine ⟨h1, by rw [h2]; rfl, fun b hb => ?_⟩
+    rw [h3 b hb]
+    simp [St.write, hb]
+
+/-- Frame for `RosenbrockGradient._call`, every domain size `n` and scale `c`: the input `x` (when
+it is not `out`) and every other existing object are left alone. -/
+theorem C10.rosenbrock_gradient_frame {K : Type} [Add K] [Sub K] [Mul K] [Neg K] [OfNat K 1]
+    (c : K) (n : Nat) : Frame (rosenProg c n) := by
+  intro jk m ob hob b hb hne
+  obtain ⟨h1, h2, h3⟩ := C10.rosenbrock_loop_frame c jk ((List.range (n - 2)).map (· + 1))
+    (env0 0 ob) { mem := m, next := 10 }
+  have hb' : b ≠ env0 0 ob .out := by simpa [env0] using hne
+  simp only [run, rosenProg, exec]
+  generalize hE : exec jk (rosenLoop c ((List.range (n - 2)).map (· + 1)))
+    (env0 0 ob, { mem := m, next := 10 }) = E at h1 h2 h3
+  obtain ⟨env, s⟩ := E
+  simp only at h1 h2 h3
+  subst h1
+  simp [exec, St.write, hb', h3 b hb']
+
+/-- FINDING (model side): `RosenbrockGradient._call` is NOT alias safe. With `out is x` the
+assignment `out[i] = …` reads `x[i-1]`, which the previous iteration has already overwritten
+(witness over ℤ: n = 4, c = 1, x = (1, 2, −1, 1): the aliased call leaves 86 ≠ … in `x`). The
+driver executes this very program and reproduces the wrong values of the real aliased call. -/
+theorem C10.rosenbrock_gradient_alias_fails : ¬ AliasSafe (rosenProg (1 : Int) 4) := by
+  intro h
+  have := congrFun (h (fun _ _ => 0) (fun _ _ => 0)
+    (fun _ k => if k = 0 then 1 else if k = 1 then 2 else if k = 2 then -1 else 1) (fun _ => 0)) 2
+  revert this
+  simp [run, exec, rosenProg, rosenLoop, rosenInner, env0, St.write, srcVals, List.range,
+    List.range.loop]
